@@ -57,7 +57,7 @@ CHECKS = {
          "computed from the harness's own serialisation, script code and amount - never from the library's bytes - and compared with "
          "Transaction.signature_hash for every input of API-built transactions over 8 spend kinds, all networks, counts across 252/253, m-of-n to 15; "
          "then the library signs and every signature is verified by the Lean ECDSA against the Lean digest (valid on the real network, not merely "
-         "self-consistent). Found and fixed through this check: F33, F45 (P2SH-P2WPKH input with a caller-supplied locking script), F82 (the same with a caller-supplied redeem script). Merged transactions (t1 + t2) and output scripts of 252 / 253 / 65535 / 65536 bytes are part of every run."),
+         "self-consistent). Found and fixed through this check: F33, F45 (P2SH-P2WPKH input with a caller-supplied locking script), F82 (the same with a caller-supplied redeem script), F124 (signature_hash(i) without a witness type took the kind of the transaction). Multisig inputs are also built from the script of the output plus keys with the threshold left to the script. Merged transactions (t1 + t2) and output scripts of 252 / 253 / 65535 / 65536 bytes are part of every run."),
    design_ref='DESIGN.md §5 C01',
    note=COMMON_NOTE + "secp256k1 arithmetic and SHA-256 in the driver are executable reference code (validated by vectors / agreement with the library), not verified. "
         "FindAndDelete/OP_CODESEPARATOR are not modelled; the library does not implement legacy non-ALL hash types (it refuses to sign them)."),
@@ -147,7 +147,7 @@ CHECKS = {
          "commitment of redeem/witness script and key to the previous output). For API-built transactions over 8 spend kinds, random signer subsets "
          "and orders, signing spread over per-input and whole-transaction calls with repeats, then 11 kinds of single-field tampering of the object "
          "and of the parsed serialisation (incl. corrupted / foreign / duplicated signatures at byte level): library verdict must match the "
-         "expectation, and library-accepts implies the independent verifier accepts. Keys attached to the inputs, a change after signing and sign_and_update() are part of every run. Found and fixed: F35 (sign() early exits), F33, F53 (re-signed pay-to-public-key input kept the old signature in its script), F73 (hash type byte of witness signatures ignored), F74 / F76 (signing a multisig input again), F75 (Input.valid stale), F101 (hash type byte of a later multisig signature), F102 (outpoint zeroed in the serialisation becomes a coinbase input), F116 (address-only multisig input adopts any key). The hash type byte of a signature is one of the tamperings; a multisig input is signed by exactly m cosigners, changed and signed again."),
+         "expectation, and library-accepts implies the independent verifier accepts. Keys attached to the inputs, a change after signing and sign_and_update() are part of every run. Found and fixed: F35 (sign() early exits), F33, F53 (re-signed pay-to-public-key input kept the old signature in its script), F73 (hash type byte of witness signatures ignored), F74 / F76 (signing a multisig input again), F75 (Input.valid stale), F101 (hash type byte of a later multisig signature), F102 (outpoint zeroed in the serialisation becomes a coinbase input), F116 (address-only multisig input adopts any key). Version and lock time are also overwritten in the serialisation (0, 1, 2, ffffffff) before parsing. The hash type byte of a signature is one of the tamperings; a multisig input is signed by exactly m cosigners, changed and signed again."),
    design_ref='DESIGN.md §5 C02',
    note=COMMON_NOTE + "Cryptographic residue: that a changed digest is not matched by the old signature rests on ECDSA/SHA-256. verify() trusts the input's own redeem script "
         "(the previous output is not part of a transaction); the independent verifier is given the previous output script and amount, as a node would have them (see F25 under C10)."),
@@ -229,7 +229,7 @@ CHECKS = {
          "failing push, transactions built by one Wallet object and imported as object / raw hex / dict into a second one and sent there, "
          "transaction_delete of sent and stub transactions, close+reopen, new keys) with real wallets (HD legacy / segwit / p2sh-segwit, "
          "single-key, multisig): utxos(), balance(), per-key balances through the open object AND a second Wallet object on the same database, "
-         "in random observation order; stored transactions are reloaded and compared (id, inputs, outputs, raw). Wallets with another default account, re-listed (also spent) outpoints, small sequence numbers, held key objects and held transaction objects sent again are part of the histories. Found and fixed: F17, F23, F24, F38, F85 (outputs filed under account 0), F86 (sequence 0 reloaded as 0xffffffff), F87 (bulk-created key objects not registered), F96 (a stale object sent again un-spent outputs), F103 (delete freed outputs a replacement still consumes), F104 / F105 (account 0 read as no account; sweep dropped the account), F110 (raw import replaced lock time 0), F117 (a deleted parent stored again listed its spent change). The ledger machine admits replacements, held unsent objects sent later and re-stored transactions (send guard without the unspent / fresh-input conditions, delete frees only what no other stored transaction consumes); wallets with two accounts run one machine per account."),
+         "in random observation order; stored transactions are reloaded and compared (id, inputs, outputs, raw). Wallets with another default account, re-listed (also spent) outpoints, small sequence numbers, held key objects and held transaction objects sent again are part of the histories. Found and fixed: F17, F23, F24, F38, F85 (outputs filed under account 0), F86 (sequence 0 reloaded as 0xffffffff), F87 (bulk-created key objects not registered), F96 (a stale object sent again un-spent outputs), F103 (delete freed outputs a replacement still consumes), F104 / F105 (account 0 read as no account; sweep dropped the account), F110 (raw import replaced lock time 0), F117 (a deleted parent stored again listed its spent change), F119 / F120 (an unspent output counts for the account of its key: balance, unspent list, input selection, rescan). Stored transactions of status new (send_to(broadcast=False) + store()) are checked directly: balance = unspent list = per-key balances on two wallet objects. The ledger machine admits replacements, held unsent objects sent later and re-stored transactions (send guard without the unspent / fresh-input conditions, delete frees only what no other stored transaction consumes); wallets with two accounts run one machine per account."),
    design_ref='DESIGN.md §5 C08',
    note=COMMON_NOTE + "One network and one account per wallet; SQL semantics and two simultaneously open SQLAlchemy sessions are outside the model (a hand-off continues on the receiving object). Outputs on non-leaf keys of an HD wallet are not generated."),
  'C07': dict(
@@ -245,7 +245,7 @@ CHECKS = {
          "(fee, fee_per_kb, inputs, change amounts or the error kind; random.randint and numpy dirichlet draws recorded), sweep, "
          "Transaction.bumpfee and WalletTransaction.bumpfee (incl. the extra-input fallback). Every created transaction is additionally checked against the sentences of C07 on the objects and on the raw "
          "bytes parsed by the Lean parser (recipients once with exact script, other outputs to change keys, inputs distinct/unspent/confirmed, "
-         "signs and verifies). Found and fixed: F39, F41, F42, F48 (duplicate explicit inputs), F88 (fee rate below the network minimum with many inputs; the theorem create_rate_limits is now about the rate of the final fee, and the signed bytes are checked to pay a rate within 10% of the limits), F89 (sweep with several rest targets; sweepPlan guard + sweep_one_rest), F98 (estimate_size of nested segwit inputs; nestedScriptSig in the model), F115 (fee bump over several change outputs took the whole extra fee again from the output that pays the rest; bumpLoop subtracts the remaining fee); listed: F40 (invalid explicit input lists are accepted)."),
+         "signs and verifies). Found and fixed: F39, F41, F42, F48 (duplicate explicit inputs), F88 (fee rate below the network minimum with many inputs; the theorem create_rate_limits is now about the rate of the final fee, and the signed bytes are checked to pay a rate within 10% of the limits), F89 (sweep with several rest targets; sweepPlan guard + sweep_one_rest), F98 (estimate_size of nested segwit inputs; nestedScriptSig in the model), F115 (fee bump over several change outputs took the whole extra fee again from the output that pays the rest; bumpLoop subtracts the remaining fee), F118 (output numbers after a fee bump), F121 (Output objects as recipients kept their own output numbers); explicit inputs also come with a claimed value that differs from the wallet's record; listed: F40 (invalid explicit input lists are accepted)."),
    design_ref='DESIGN.md §5 C07',
    note=COMMON_NOTE + "Rows with equal (confirmations, value) may come back from SQLite in either order; selections differing only in such ties count as equal. send()'s fee re-estimation is exercised through C08 histories, not modelled."),
  'C09': dict(
@@ -261,7 +261,7 @@ CHECKS = {
          "key_for_path, keys becoming used, reopen); every key handed out and every leaf row is re-derived from the seed by the Lean BIP32 model "
          "and its address recomputed by the Lean address model; keys.path_expand is compared on partial paths with all hardened spellings; "
          "wallets are re-created from seed, mnemonic, xprv and (watch-only) account xpub and must reproduce the addresses. "
-         "Histories now also ask for the account public key in the middle (public_master), add an account on a second network, give a watch-only wallet its private master key and reopen it, and run the index machine on cosigner wallets of multisigs. Found and fixed: F43, F44, F54, F55, F56, F97 (new_key with a cosigner ID on a single-signature wallet), F112 (multisig keys asked for by [change, index] stored under index 0), F114 (key_for_path with a cosigner ID on a single-signature wallet). The change-chain wrappers get_key_change / get_keys_change are part of every history."),
+         "Histories now also ask for the account public key in the middle (public_master), add an account on a second network, give a watch-only wallet its private master key and reopen it, and run the index machine on cosigner wallets of multisigs. Found and fixed: F43, F44, F54, F55, F56, F97 (new_key with a cosigner ID on a single-signature wallet), F112 (multisig keys asked for by [change, index] stored under index 0), F114 (key_for_path with a cosigner ID on a single-signature wallet), F123 (bulk keys from an explicit path stored on the wrong chain). The change-chain wrappers get_key_change / get_keys_change are part of every history."),
    design_ref='DESIGN.md §5 C09',
    note=COMMON_NOTE + "Histories run on single-signature HD wallets; multisig key paths are covered by the table and path theorems and by the cosigner-wallet comparison of C10."),
  'C10': dict(
@@ -276,7 +276,7 @@ CHECKS = {
          "ceremonies over all signer sequences (incl. a cosigner signing twice) with hand-off as object, dict and raw hex: after every step "
          "the number of signatures and verify() must equal the model, the redeem script of the spend must be the sorted-key script, and "
          "send(broadcast=True) must push iff at least m distinct cosigners signed. Found and fixed: F24 (dict hand-off), F25 (raw hand-off "
-         "broadcast a 2-of-2 with one signature), F50 (dict hand-off dropped sequence numbers), F57 (multi-input dict hand-off signed in the wrong key order), F100 (ceremonies beyond the threshold through dict hand-offs duplicated and lost signatures; 2-of-5 in the quick tier), F113 (eleven and more cosigners: reopened wallet loaded the cosigner wallets by name); listed: F26 (raw hand-off loses partial signatures; never an under-signed broadcast)."),
+         "broadcast a 2-of-2 with one signature), F50 (dict hand-off dropped sequence numbers), F57 (multi-input dict hand-off signed in the wrong key order), F100 (ceremonies beyond the threshold through dict hand-offs duplicated and lost signatures; 2-of-5 in the quick tier), F113 (eleven and more cosigners: reopened wallet loaded the cosigner wallets by name), F122 (a stored unsigned multisig spend read back as 1-of-n); listed: F26 (raw hand-off loses partial signatures; never an under-signed broadcast)."),
    design_ref='DESIGN.md §5 C10',
    note=COMMON_NOTE + "ECDSA validity of the individual signatures is C02/C13; here the signer set, its order-independence and the threshold are decided. n up to 15 is covered by the theorems (any n), the run stops at n = 5."),
 }
